@@ -1,6 +1,7 @@
 //! The real gdsl objects of one run, the interpreter that executes `Op`s on
 //! them through the public API, and the C01/C02 invariant monitors.
 
+use std::collections::BTreeMap;
 use crate::flavour::{Flavour, GErr, SearchOut};
 use crate::locks::{caught, Caught};
 use crate::model::{Closure, Er, Model, Obs, Op, Prov, SMode, SearchSpec, SKind};
@@ -450,13 +451,31 @@ impl<F: Flavour> World<F> {
                     return Err(format!("node {u} lists unknown key {k}"));
                 }
             }
-            let mut vals: Vec<u64> = all[u].iter().map(|x| x.1).collect();
-            vals.sort();
-            vals.dedup();
-            for v in 0..n {
-                for e in &vals {
-                    let cu = all[u].iter().filter(|x| x.0 == v && x.1 == *e).count();
-                    let cv = all[v].iter().filter(|x| x.0 == u && x.1 == *e).count();
+            // every (neighbour, value) pair that occurs at u, once; a pair that occurs only at the
+            // other endpoint is met when that endpoint is u. Both lists sorted once: counting is a
+            // range, not a rescan (a hub of 4000+ entries is otherwise cubic).
+            let mut pairs: Vec<(usize, u64)> = all[u].clone();
+            pairs.sort();
+            pairs.dedup();
+            let sorted_u = {
+                let mut x = all[u].clone();
+                x.sort();
+                x
+            };
+            let count_in = |sorted: &Vec<(usize, u64)>, key: (usize, u64)| {
+                sorted.partition_point(|x| *x <= key) - sorted.partition_point(|x| *x < key)
+            };
+            let mut sorted_cache: BTreeMap<usize, Vec<(usize, u64)>> = BTreeMap::new();
+            {
+                for (v, e) in &pairs {
+                    let (v, e) = (*v, e);
+                    let cu = count_in(&sorted_u, (v, *e));
+                    let sv = sorted_cache.entry(v).or_insert_with(|| {
+                        let mut x = all[v].clone();
+                        x.sort();
+                        x
+                    });
+                    let cv = count_in(sv, (u, *e));
                     if u == v {
                         if cu % 2 != 0 {
                             return Err(format!(
